@@ -1,6 +1,6 @@
-// C07 (part 1) — builtin backend: spmv, residual, axpby, axpbypcz, vmul, lin_comb, copy, clear, inner_product
-// for float, double, long double, complex<double>, static_matrix<double,b,b> (b=2,3,4), static_matrix<complex<double>,2,2>, including scalar vectors
-// passed where block vectors are expected.  Machinery and oracles: c07_common.hpp.
+// C07 (part 1a) — builtin backend, scalar and complex values (block values: c07_builtin_blk.cpp): spmv, residual, axpby, axpbypcz, vmul, lin_comb, copy, clear, inner_product
+// for float, double, long double, complex<double> (block values: c07_builtin_blk.cpp).
+// Machinery and oracles: c07_common.hpp.
 #include "c07_common.hpp"
 
 using namespace c07;
@@ -24,10 +24,6 @@ static std::vector<Prop> props() {
     add_props<float>(p, "float", 1000, 10000);
     add_props<long double>(p, "longdouble", 1000, 10000);
     add_props<cplx>(p, "complex", 1200, 12000);
-    add_props<blk2>(p, "blk2", 1200, 12000);
-    add_props<blk3>(p, "blk3", 800, 8000);
-    add_props<blk4>(p, "blk4", 800, 8000);
-    add_props<cblk2>(p, "cblk2", 800, 8000);
     return p;
 }
 static std::vector<Enum> enums() { return {}; }
